@@ -1,7 +1,10 @@
 mod engine;
 mod gen;
+mod http;
 mod iod;
 mod l1;
+mod l2;
+mod scen;
 mod props;
 mod refs;
 mod util;
